@@ -325,6 +325,7 @@ func TestVF_C06_Cluster(t *testing.T) {
 				p.WidenUs = 200 + vfhelp.PickN(t, "widenus2", 1500)
 			}
 			p.Faults = append(p.Faults, Fault{Kind: FTransfer, A: vfhelp.Pick(t, "tr", 2), B: vfhelp.Pick(t, "trb", 2), AfterMs: 10 + vfhelp.PickN(t, "trafter", 40)})
+			p.StaleReaders = 1 + vfhelp.Pick(t, "stalereaders", 1)
 			if vfhelp.Pick(t, "slowread", 1) == 1 {
 				// readers that use their completed ReadIndex late, while replicas are stopped and started again
 				p.SlowReadUs = 500 + vfhelp.PickN(t, "slowreadus", 4000)
